@@ -43,7 +43,8 @@ Definition validb : bool :=
   nodupb (flat_map c_instr courses) &&
   forallb (fun p => forallb (fun ch => (ch_course ch <? nc) && (0 <=? ch_pen ch)%Z) (p_choices p) &&
                     nodupb (map ch_course (p_choices p))) parts &&
-  (Z.of_nat np * maxpen <? WEIGHT_OFFSET)%Z.
+  (Z.of_nat np * maxpen <? WEIGHT_OFFSET)%Z &&
+  existsb (fun p => negb (instr_only p)) (seq 0 np).            (* at least one participant with choices *)
 (* a participant who has own choices instructs a course: the class of the known finding for C02/C03 *)
 Definition in_tc : bool :=
   existsb (fun p => negb (instr_only p) && existsb (fun c => instructs p c) (seq 0 nc)) (seq 0 np).
